@@ -227,8 +227,6 @@ def _struct(fam, e, cfg, twin=False):
                 problems.append(f'in_promoted_dtype={op.in_promoted_dtype}')
             if outs and np.dtype(op.out_promoted_dtype) != np.dtype(jnp.result_type(*outs)):
                 problems.append(f'out_promoted_dtype={op.out_promoted_dtype}')
-            if dt != 'wide' and any(np.dtype(l.dtype) != np.dtype(dtype) for l in outs):
-                problems.append(f'output dtype {[str(l.dtype) for l in outs]} differs from the data dtype {dt}')
             if problems:
                 return violation(f'{show(e)} [{fam}, {cfg}]: ' + ', '.join(problems), signature=f'c05-size-dtype:{fam}:{show(e)}:{cfg}', kind='struct')
             return ok(obligations=0, structure_checks=1, nontrivial=not structs_equal(decl, xin), sample=dict(operator=show(e), family=fam, config=list(cfg), out=str(describe_struct(decl))[:120]))
